@@ -22,6 +22,13 @@ theorem map_ok {ε α β} {x : Except ε α} {f : α → β} {b : β} :
 @[simp] theorem error_ne_ok {ε α} (e : ε) (b : α) : (Except.error e : Except ε α) ≠ .ok b := by
   intro h; cases h
 
+theorem vmapArgs_ok {m : Mode} {v : Val} {as : List Val} (h : vmapArgs m v = .ok as) :
+    argList v = .ok as ∧ m ≠ .regen := by
+  unfold vmapArgs at h
+  split at h
+  · simp at h
+  · rename_i hm; exact ⟨h, by simpa using hm⟩
+
 /-! ### vmapLoop -/
 
 theorem vmapLoop_length {f : Nat → Except Err Res} : ∀ {n k rs}, vmapLoop f k n = .ok rs → rs.length = n
